@@ -89,6 +89,7 @@ class Result:
         self.assumptions = []
         self.checker_cmd = ''
         self.notes = []
+        self.invalid_cases = 0
     def add_broken(self, kind, name, detail):
         self.broken.append((kind, name, detail))
         log(f"[{self.prop}] BROKEN {kind}: {name}: {detail[:400]}")
